@@ -7,7 +7,7 @@ import layoutlib as L
 import vlib
 
 MANIFEST = {
-    "text": "Pairs of generated fragments over disjoint slot sets are analysed separately and together behind a dispatcher (two dispatcher shapes); an injective renumbering of the slot constants (small to small, small to > 2^128, changing PUSH widths) is applied to one fragment. The four layouts of each case are compared INSIDE Coq: layout(A+B) must be the sorted union of layout(A) and layout(B), and layout(rename A) must be the renamed layout(A) with unchanged types and offsets. Registration is modelled (Register.v) and proved for ALL value lists: every sub-term gets a variable (register_covers_subterms), the same stable value shares one typed node (register_stable_shared), a value without stable part gets only fresh variables (register_unstable_fresh), and two registered values without a common stable sub-term share no type variable (register_disjoint) -- so evidence of unrelated slots lives on disjoint variables; invariance under permutation of the value list is proved on stable sub-values (register_order_partial) and evaluated in full on the implementation (check_order). At the unification stage locality is PROVED on the order-free fragment (props/C11_unify.v, fragment coq/UnifyOrder.v: no packed encodings, homogeneous congruence-closure classes): C11_unify_disjoint_union -- for variable-disjoint judgement sets side by side, under ANY iteration orders, all runs return, two variables of a part share a class in the whole iff they do in the part alone, variables of different parts never share a class, and every variable gets the same type as in its part alone; C11_closure_disjoint_union proves the congruence closure local for all disjoint judgement sets; C11_unify_packed_fresh_names_refuted shows that with packed encodings the NAMES of fresh span variables depend on the other fragment (one global counter). Equivariance of unification under renaming is not proved: decided by the metamorphic search (partial).",
+    "text": "Pairs of generated fragments over disjoint slot sets are analysed separately and together behind a dispatcher (two dispatcher shapes); an injective renumbering of the slot constants (small to small, small to > 2^128, changing PUSH widths) is applied to one fragment. The four layouts of each case are compared INSIDE Coq: layout(A+B) must be the sorted union of layout(A) and layout(B), and layout(rename A) must be the renamed layout(A) with unchanged types and offsets. Registration is modelled (Register.v) and proved for ALL value lists: every sub-term gets a variable (register_covers_subterms), the same stable value shares one typed node (register_stable_shared), a value without stable part gets only fresh variables (register_unstable_fresh), and two registered values without a common stable sub-term share no type variable (register_disjoint) -- so evidence of unrelated slots lives on disjoint variables; invariance under permutation of the value list is proved in full (register_order in props/C02_register.v: the registered states are equal up to a bijective renaming of type variables) and evaluated on the implementation (check_order). At the unification stage locality is PROVED on the order-free fragment (props/C11_unify.v, fragment coq/UnifyOrder.v: no packed encodings, homogeneous congruence-closure classes): C11_unify_disjoint_union -- for variable-disjoint judgement sets side by side, under ANY iteration orders, all runs return, two variables of a part share a class in the whole iff they do in the part alone, variables of different parts never share a class, and every variable gets the same type as in its part alone; C11_closure_disjoint_union proves the congruence closure local for all disjoint judgement sets; C11_unify_packed_fresh_names_refuted shows that with packed encodings the NAMES of fresh span variables depend on the other fragment (one global counter). Equivariance of unification under renaming is not proved: decided by the metamorphic search (partial).",
     "note": "Trusted: Coq kernel for the comparison; the fragment generator and renamer (tools/gen.py); harness.",
     "technique": "metamorphic search (union of independent fragments, injective slot renaming) with the comparison evaluated inside Coq; "
                  "stage lemmas partial",
